@@ -105,9 +105,14 @@ impl Layout {
     /// Constrain surface by the layout, that is create sub-subsurface view
     /// with offset `pos` and size of `size`.
     pub fn apply_to<'a>(&self, surf: TerminalSurface<'a>) -> TerminalSurface<'a> {
-        let rows = self.pos.row..self.pos.row + self.size.height;
-        let cols = self.pos.col..self.pos.col + self.size.width;
+        // clamp to the surface first: positions and sizes are arbitrary usize values
+        // (offsets, margins), the sum might overflow and `view` would treat values
+        // that do not fit `i64` as offsets from the end
         let (shape, data) = surf.parts();
+        let rows = self.pos.row.min(shape.height)
+            ..self.pos.row.saturating_add(self.size.height).min(shape.height);
+        let cols = self.pos.col.min(shape.width)
+            ..self.pos.col.saturating_add(self.size.width).min(shape.width);
         SurfaceMutView::new(shape.view(rows, cols), data)
     }
 }
